@@ -59,6 +59,7 @@ type inlineSite struct {
 	stmt    ast.Stmt // statement that contains the call (replaced as a whole)
 	call    *ast.CallExpr
 	wrap    bool // stmt is the Else of an if: wrap into braces
+	deferred bool // the call is the operand of a defer statement: the body runs in a deferred function literal
 	inFunc  string
 	nonVoid bool
 }
@@ -428,7 +429,28 @@ func classifyUse(id *ast.Ident, parents map[ast.Node]ast.Node, info *types.Info)
 			}
 		case *ast.DeferStmt:
 			if x.Call == child {
-				return nil, "helper deferred"
+				// `defer helper(args)`: operands are evaluated now, the body runs at function exit. Normalised to
+				// temporaries + `defer func() { body }()`, which is what a deferred closure written by hand looks like.
+				switch parents[x].(type) {
+				case *ast.BlockStmt, *ast.CaseClause, *ast.CommClause:
+				default:
+					return nil, "helper deferred in an unsupported position"
+				}
+				for _, a := range call.Args {
+					bad := false
+					ast.Inspect(a, func(m ast.Node) bool {
+						if ce, ok := m.(*ast.CallExpr); ok && !pureCall(ce, info) {
+							bad = true
+						}
+						return true
+					})
+					if bad {
+						return nil, "helper deferred with calls among its operands"
+					}
+				}
+				site.deferred = true
+				site.stmt = x
+				return site, ""
 			}
 		}
 		if st, ok := q.(ast.Stmt); ok {
@@ -720,6 +742,9 @@ func buildInline(pkg *packages.Package, hbody *ast.BlockStmt, sig *types.Signatu
 			rtext = "*(" + rtext + ")"
 		}
 		tmp := fmt.Sprintf("%s_a%d", pfx, k)
+		if nm := sig.Recv().Name(); nm != "" && nm != "_" {
+			tmp = pfx + "_" + nm
+		}
 		k++
 		fmt.Fprintf(&b, "var %s %s = %s; _ = %s; ", tmp, typeStr(rt), rtext, tmp)
 		binds = append(binds, bind{sig.Recv().Name(), typeStr(rt), tmp})
@@ -727,11 +752,17 @@ func buildInline(pkg *packages.Package, hbody *ast.BlockStmt, sig *types.Signatu
 	for i, a := range s.call.Args {
 		p := sig.Params().At(i)
 		tmp := fmt.Sprintf("%s_a%d", pfx, k)
+		if nm := p.Name(); nm != "" && nm != "_" {
+			tmp = pfx + "_" + nm
+		}
 		k++
 		fmt.Fprintf(&b, "var %s %s = %s; _ = %s; ", tmp, typeStr(p.Type()), string(csrc[off(a.Pos()):off(a.End())]), tmp)
 		binds = append(binds, bind{p.Name(), typeStr(p.Type()), tmp})
 	}
 	// result temporaries
+	if s.deferred {
+		b.WriteString("defer func() { ")
+	}
 	var rtmps []string
 	for i := 0; i < sig.Results().Len(); i++ {
 		tmp := fmt.Sprintf("%s_r%d", pfx, i)
@@ -831,6 +862,12 @@ func buildInline(pkg *packages.Package, hbody *ast.BlockStmt, sig *types.Signatu
 		return nil, fmt.Errorf("function with results and no return")
 	}
 	b.WriteString("\n}}")
+	if s.deferred {
+		// the whole defer statement is replaced
+		b.WriteString("}()")
+		callerLine(s.stmt.End())
+		return append([]edit{{off(s.stmt.Pos()), off(s.stmt.End()), b.String()}}, imports...), nil
+	}
 	callerLine(s.stmt.Pos())
 	// the original statement stays where it is; only the call expression is replaced by the result temporaries
 	var out []edit
